@@ -12,7 +12,12 @@ tmp=$(mktemp -d /tmp/vcgo-selftest.XXXXXX)
 run_one() { # patch props expect(1=violation,0=green) label
   patch=$1; props=$2; expect=$3; label=$4
   wt=$tmp/wt
-  git -C /repo worktree add -q --detach "$wt" HEAD || { echo "cannot create worktree"; fail=1; return; }
+  ok=0
+  for try in 1 2 3 4 5 6; do
+    if git -C /repo worktree add -q --detach "$wt" HEAD 2>/dev/null; then ok=1; break; fi
+    sleep 1; git -C /repo worktree prune 2>/dev/null
+  done
+  [ $ok = 1 ] || { echo "cannot create worktree"; fail=1; return; }
   if ! (cd "$wt" && git apply "$patch"); then echo "SELFTEST-ERROR $label: patch does not apply"; fail=1
   else
     for p in $props; do
@@ -29,12 +34,29 @@ run_one() { # patch props expect(1=violation,0=green) label
   fi
   git -C /repo worktree remove --force "$wt"; rm -rf "$wt" "$tmp/verif"
 }
+# SELFTEST_JOBS=n runs the must-fail part in n shards side by side (each with its own scratch directory); the
+# default is one after the other
+jobs=${SELFTEST_JOBS:-1}
+if [ "$jobs" -gt 1 ] && [ -z "$SELFTEST_SHARD" ]; then
+  pids=""
+  for k in $(seq 0 $((jobs-1))); do
+    SELFTEST_SHARD=$k SELFTEST_JOBS=$jobs SELFTEST_NOBENIGN=1 "$0" "$@" > "$tmp/shard$k.log" 2>&1 &
+    pids="$pids $!"
+  done
+  for pid in $pids; do wait $pid || fail=1; done
+  cat "$tmp"/shard*.log | grep -v "^selftest:"
+else
+i=0
 for d in seeded/*/; do
   [ -f "$d/patch.diff" ] || continue
   prop=$(python3 -c "import json,sys; print(json.load(open('$d/meta.json'))['property'])")
   [ -n "$only" ] && [ "$prop" != "$only" ] && continue
+  i=$((i+1))
+  if [ -n "$SELFTEST_SHARD" ] && [ $((i % jobs)) -ne "$SELFTEST_SHARD" ]; then continue; fi
   run_one "$PWD/$d/patch.diff" "$prop" 1 "$(basename $d)"
 done
+fi
+if [ -n "$SELFTEST_NOBENIGN" ]; then rm -rf "$tmp"; [ $fail -eq 0 ] && echo "selftest: shard ok" || echo "selftest: shard FAILED"; exit $fail; fi
 for f in selftest/benign/*.diff; do
   [ -f "$f" ] || continue
   props=$(head -1 "$f" | sed -n 's/^# props: //p')
